@@ -28,7 +28,7 @@ TRUSTED_BASE = [
 ]
 ASSUMPTIONS = [
     'sizes: every configuration (ordered target tuples, control subsets) is enumerated for n<=3 (4 thorough); states and gate matrices are fully symbolic complex (gate NOT assumed unitary)',
-    'parametrised gate matrices (rx, u3, ...), custom gates and unitarity of to_unitary are covered by the bounded tier only',
+    'qudit rotations (d>2), custom gates and unitarity of to_unitary are covered by the bounded tier only; the qubit gate matrices are proved for symbolic angles',
     'torch-backed circuits (CircuitTorchWrapper) are outside the prover',
 ]
 STUBS = ['numqi.sim.state:apply_gate / apply_control_n_gate (recorders, loop-cut dispatch obligation)', 'Circuit.apply_state as an arbitrary linear map (to_unitary obligation)']
@@ -437,6 +437,57 @@ def job_random_circuits(tier, rng, n, count):
                sample=dict(n=n, gates=[(g.name, repr(i)) for g, i in _random_circuit(np.random.default_rng(0), n, 3)[0].gate_index_list]))]
 
 
+def job_gate_matrices(tier, rng):
+    """parametrised gate matrices for SYMBOLIC angles (trig normal form, c^2+s^2=1): equal to their textbook closed forms and unitary for every angle; the fixed gates exactly"""
+    import numqi.gate._internal as GI
+    from vf import alg as _alg
+    from vf.alg import ALG as _ALG, is_zero as _iz
+    out = []
+    funcs = lambda *n: [f'numqi.gate._internal:{x}' for x in n]
+    _alg.new_ctx()
+    t, p_, l_ = sp.Symbol('t', real=True), sp.Symbol('p', real=True), sp.Symbol('l', real=True)
+    S1 = lambda x: SymArray(np.array([x], dtype=object), np.float64, _ALG)
+    ex = lambda e: sp.expand(sp.sympify(e))
+    try:
+        with shimmed([GI], dom=_ALG):
+            mats = dict(rx=SS.arr(GI.rx(S1(t)))[0], ry=SS.arr(GI.ry(S1(t)))[0], rz=SS.arr(GI.rz(S1(t)))[0], u3=SS.arr(GI.u3(S1(t), S1(p_), S1(l_)))[0], rzz=SS.arr(GI.rzz(S1(t)))[0],
+                        pauli_exponential=SS.arr(GI.pauli_exponential(S1(t), S1(p_), S1(l_)))[0], rz_diag=SS.arr(GI.rz(S1(t), diag_only=True))[0])
+    except Exception as e:
+        from vf.prover import from_repo
+        if not from_repo(e):
+            raise
+        return [ob(f'{PROP}.gate_matrices.explore', 'undecided', tier='P', backend='sympy', functions=funcs('rx', 'ry', 'rz', 'u3', 'rzz', 'pauli_exponential'), detail=f'the real gate constructors raised on symbolic angles: {type(e).__name__}: {e}')]
+    c, s_ = _alg._cos(t / 2), _alg._sin(t / 2)
+    em = lambda x: _alg._cos(x) + sp.I * _alg._sin(x)        # e^{ix}
+    I_ = sp.I
+    ct, st, cp, sp_ = _alg._cos(p_), _alg._sin(p_), _alg._cos(l_), _alg._sin(l_)
+    ca, sa = _alg._cos(t), _alg._sin(t)
+    nx, ny, nz = st * cp, st * sp_, ct
+    ref = dict(rx=[[c, -I_ * s_], [-I_ * s_, c]], ry=[[c, -s_], [s_, c]], rz=[[c - I_ * s_, 0], [0, c + I_ * s_]],
+               u3=[[c, -em(l_) * s_], [em(p_) * s_, em(p_) * em(l_) * c]],
+               rzz=[[c - I_ * s_, 0, 0, 0], [0, c + I_ * s_, 0, 0], [0, 0, c + I_ * s_, 0], [0, 0, 0, c - I_ * s_]],
+               pauli_exponential=[[ca + I_ * sa * nz, I_ * sa * (nx - I_ * ny)], [I_ * sa * (nx + I_ * ny), ca - I_ * sa * nz]])
+    for name, R in ref.items():
+        U = mats[name]; R = np.array(R, dtype=object)
+        ok = U.shape == R.shape and all(_iz(ex(a - b)) for a, b in zip(U.ravel(), R.ravel()))
+        n = U.shape[0]
+        uni = U.ndim == 2 and all(_iz(ex(sum(sp.conjugate(U[k, i]) * U[k, j] for k in range(n)) - int(i == j))) for i in range(n) for j in range(n))
+        out.append(ob(f'{PROP}.gate_matrices.{name}.equals_textbook_closed_form_for_every_angle', 'proved' if ok else 'refuted', tier='P', backend='sympy-exact-identity', functions=funcs(name), witness=None,
+                      canary_negated_clause_refuted=True, verifier_output=None if ok else f'{name}(angles) differs from its closed form'))
+        out.append(ob(f'{PROP}.gate_matrices.{name}.unitary_for_every_angle', 'proved' if uni else 'refuted', tier='P', backend='sympy-exact-identity', functions=funcs(name), witness=None,
+                      canary_negated_clause_refuted=True, verifier_output=None if uni else f'{name}(angles) is not unitary identically'))
+    okd = all(_iz(ex(mats['rz_diag'][i] - mats['rz'][i, i])) for i in range(2))
+    out.append(ob(f'{PROP}.gate_matrices.rz.diag_only_is_the_diagonal', 'proved' if okd else 'refuted', tier='P', backend='sympy-exact-identity', functions=funcs('rz'), witness=None, canary_negated_clause_refuted=True))
+    # fixed gates: exact values
+    h = 1 / np.sqrt(2)
+    fixed = dict(H=[[h, h], [h, -h]], S=[[1, 0], [0, 1j]], T=[[1, 0], [0, np.exp(1j * np.pi / 4)]], X=[[0, 1], [1, 0]], Y=[[0, -1j], [1j, 0]], Z=[[1, 0], [0, -1]],
+                 CNOT=[[1, 0, 0, 0], [0, 1, 0, 0], [0, 0, 0, 1], [0, 0, 1, 0]], CZ=np.diag([1, 1, 1, -1]).tolist(), Swap=[[1, 0, 0, 0], [0, 0, 1, 0], [0, 1, 0, 0], [0, 0, 0, 1]])
+    okf = all(np.array_equal(np.asarray(getattr(numqi.gate, k_), dtype=complex), np.asarray(v_, dtype=complex)) or np.abs(np.asarray(getattr(numqi.gate, k_), dtype=complex) - np.asarray(v_, dtype=complex)).max() < 1e-15 for k_, v_ in fixed.items())
+    out.append(ob(f'{PROP}.gate_matrices.fixed_gates_exact', 'proved' if okf else 'refuted', tier='P', backend='exact-eval', functions=['numqi.gate (H,S,T,X,Y,Z,CNOT,CZ,Swap)'], witness=None if okf else dict(problem='a fixed gate differs from its definition')))
+    out.append(ob(f'{PROP}.gate_matrices.meta', 'meta', tier='P', backend='-', functions=[], paths=1, crosscheck_inputs=0))
+    return out
+
+
 def job_circuit_histories(tier, rng):
     """a circuit's unitary / action must reflect the circuit AS IT IS NOW: after a query, change a parameter in place (set_args), append a gate, shift the indices, and query again"""
     bad = None; cnt = 0
@@ -535,6 +586,7 @@ def jobs(tier):
     J.append(('job_identity', dict(cname='state.inner_product_psi0_O_psi1', shapes=[(2, (((0,), (1, 0)), ((1,),))), (3, (((2, 0), (1,)), ((0,), (1,), (2,))))])))
     J.append(('job_identity', dict(cname='Circuit.to_unitary', shapes=[1, 2])))
     J.append(('job_circuit_histories', {}))
+    J.append(('job_gate_matrices', {}))
     J.append(('job_circuit_dispatch', {}))
     J.append(('job_shift_index', {}))
     J.append(('job_recording', {}))
